@@ -314,7 +314,26 @@ def replay_size(failure):
     ok = native_size_post(info['action'], asp, h, w, H, W, rh, rw)
     bad = [k for k, v in ok.items() if not v]
     key = failure['obligation'].split(':')[0].split('.')[-1]
-    return {'confirmed': any(key in b for b in bad), 'inputs': inputs, 'observed': f'result {rh}x{rw} (h x w)', 'violated_clauses': bad}
+    if any(key in b for b in bad):
+        return {'confirmed': True, 'inputs': inputs, 'observed': f'result {rh}x{rw} (h x w)', 'violated_clauses': bad}
+    # the solver reasons about exact rationals with a rounding margin; a float-rounding defect shows only for particular sizes: bounded native sweep of small sizes
+    for w2 in range(1, 13):
+        for h2 in (1, 2, 7, 40):
+            img = np.zeros((h2, w2, 3), np.uint8)
+            for W2 in range(1, 131):
+                for H2 in (1, 8, 10, 122):
+                    x2 = real_adict(action=info['action'], width=W2, height=H2)
+                    if not asp:
+                        x2.aspect = False
+                    try:
+                        o2 = Util.__new__(Util).execute_xform_size(x2, Frame(img, {}, 'BGR'))
+                    except Exception as e:
+                        return {'confirmed': True, 'inputs': dict(image=f'{h2}x{w2} (h x w) BGR', xform=dict(x2)), 'observed': f'raises {type(e).__name__}: {str(e)[:120]}', 'required': 'no valid image makes a transform fail'}
+                    bad2 = [k for k, v in native_size_post(info['action'], asp, h2, w2, H2, W2, o2.height, o2.width).items() if not v]
+                    if bad2:
+                        return {'confirmed': True, 'inputs': dict(image=f'{h2}x{w2} (h x w) BGR', xform=dict(x2)), 'observed': f'result {o2.height}x{o2.width} (h x w)', 'violated_clauses': bad2,
+                                'note': 'found by the bounded native sweep of small sizes (the solver model itself did not reproduce)'}
+    return {'confirmed': False, 'inputs': inputs, 'observed': f'result {rh}x{rw} (h x w); bounded sweep of small sizes clean', 'violated_clauses': bad}
 
 
 def native_size_post(action, asp, h, w, H, W, rh, rw):
